@@ -184,6 +184,37 @@ def run(ctx):
         else:
             why = "ascii_encode iterates characters but neither pushes one byte per iteration nor maps each character to one byte"
     ctx.check(per_char, "REPL", "ascii_encode emits one byte per character", "", why, f.loc(), fn=f.name, key="REPL|ascii-per-char")
+    # ascii_decode: one character per BYTE (the byte itself when ASCII, U+FFFD otherwise) -----------------------------------
+    f = prog.fn("msi::internal::codepage::ascii_decode")
+    unit = prog.unit(f)
+    per_byte, whyd = False, "ascii_decode neither pushes one character per iteration over the bytes nor maps each byte to one character"
+    its = calls(prog, f, r"<impl \[T\]>::iter$|IntoIterator>?::into_iter$")
+    pushes = calls(prog, f, r"(Vec::<T, A>|String)::push$")
+    loops_ = cfg.natural_loops(f)
+    if pushes and loops_:
+        from .loops import cycle_without
+        pb = {b for b, t in pushes}
+        per_byte = True
+        for h, body in loops_.items():
+            if cycle_without(f, h, body, pb):
+                per_byte, whyd = False, "an iteration of ascii_decode's loop can complete without emitting a character: that byte is dropped from the text"
+            succs = f.succs()
+            for p1_ in pb & body:
+                seen, st_ = set(), [x for x in succs[p1_] if x in body and x != h]
+                while st_:
+                    x = st_.pop()
+                    if x in seen or x == h:
+                        continue
+                    seen.add(x)
+                    st_.extend(y for y in succs[x] if y in body)
+                if seen & pb:
+                    per_byte, whyd = False, "an iteration of ascii_decode's loop can emit two characters for one byte"
+    elif calls(prog, f, r"Iterator::map$") and any(g.kind == "Closure" and g.locals[0] == "char" for g in unit):
+        per_byte = True
+    consts = [o["int"] for g in unit for bl in g.blocks for st in bl["stmts"] for o in st["rhs"].get("ops", []) if o.get("k") == "const" and o.get("ty") == "char" and "int" in o] + \
+        [a["int"] for g in unit for b, t in g.calls() for a in t["args"] if a.get("k") == "const" and a.get("ty") == "char" and "int" in a]
+    ctx.check(per_byte and set(consts) <= {0xFFFD} and bool(consts), "REPL", "ascii_decode emits one character per byte (U+FFFD for non-ASCII)", "", whyd if not per_byte else
+              "ascii_decode substitutes %s, not U+FFFD" % [hex(c) for c in consts], f.loc(), fn=f.name, key="REPL|ascii-per-byte")
     f = prog.fn("msi::internal::codepage::CodePage::encode")
     S = Sym(prog, f)
     loops = cfg.natural_loops(f)
